@@ -173,6 +173,8 @@ FAILING = {
     "fail_in_nested_function": "def outer(a):\n    def inner(b):\n        for i in range(b):\n            assert i\n        return a\n    return inner\n",
     "fail_in_comprehension_class": "class K:\n    v = [x for x in range(3)]\n    del v\n",
     # deeply nested EXPRESSIONS (the statement-count programs above nest the wrapper calls instead)
+    "fail_hugehex_then_deep": "h = 0x1%s\ny = %s\n" % ("0" * 4000, " + ".join(["1"] * 700)),
+    "fail_class_then_deep": "class K:\n    v = 1\nimport os\ni = 0\nwhile i < 2:\n    i += 1\nfor j in range(3):\n    if j:\n        break\ny = %s\n" % " + ".join(["1"] * 700),
     "fail_deep_binop": "x = " + " + ".join(["1"] * 700) + "\nprint(x)\n",
     "fail_deep_attr": "import os\nx = os" + ".path" * 600 + "\n",
     "fail_deep_calls": "f = lambda v: v\nx = " + "f(" * 150 + "1" + ")" * 150 + "\nprint(x)\n",
@@ -195,6 +197,7 @@ BIG = {
     "many_args": "def f(*a, **k):\n    return len(a) + len(k)\nprint(f(%s, %s))\n" % (
         ", ".join(str(i) for i in range(260)), ", ".join("k%d=%d" % (i, i) for i in range(260))),
     "many_names": "".join("n%d = %d\n" % (i, i) for i in range(130)) + "print(n0 + n129)\n",
+    "many_statements_260": "".join("s%d = %d\n" % (i, i) for i in range(259)) + "print(s0 + s258)\n",
     "many_functions": "".join("def fn%d(a, b):\n    def g():\n        return a + b + %d\n    return g\n" % (i, i) for i in range(40)) + "print(fn0(1, 2)() + fn39(1, 2)())\n",
     "deep_nesting": "x = 0\n" + "".join("%sif x == %d:\n" % ("    " * i, i) for i in range(18)) + "    " * 18 + "x += 1\n" + "print(x)\n",
 }
